@@ -822,15 +822,10 @@ func TestFrameEnum(t *testing.T) {
 		}
 		stats.Check(t, c, checkFrame)
 	}
-	stats.G().Extra("v4_object_types", uint64(len(v4types))/uint64(nsh)+b2u(shard < len(v4types)%nsh))
-	stats.G().Extra("v4_enum_cases_total", uint64(len(cases))/uint64(nsh)+b2u(shard < len(cases)%nsh))
-}
-
-func b2u(b bool) uint64 {
-	if b {
-		return 1
+	if shard == 0 {
+		stats.G().Extra("v4_object_types", uint64(len(v4types)))
+		stats.G().Extra("v4_enum_cases_total", uint64(len(cases)))
 	}
-	return 0
 }
 
 // drawSize draws a size parameter in [lo, hi], biased to the ends.
